@@ -102,6 +102,14 @@ func (f *FakeAuth) MaxInflight(endpoint, key string) int {
 	return f.maxInfl[k(endpoint, key)]
 }
 
+// Inflight returns the number of calls for (endpoint, key) that were received and not yet answered
+// (a held or timed-out call is visible here before it shows up in Calls).
+func (f *FakeAuth) Inflight(endpoint, key string) int {
+	f.mu.Lock()
+	defer f.mu.Unlock()
+	return f.inflight[k(endpoint, key)]
+}
+
 // Total returns the number of calls received.
 func (f *FakeAuth) Total() int64 { f.mu.Lock(); defer f.mu.Unlock(); return f.total }
 
